@@ -38,7 +38,9 @@ MIN_COUNTERS = {'roundtrips_aegean_reader': 100, 'roundtrips_direct_reader': 50,
                 'origin_hand': 5, 'origin_reload_csv': 3, 'origin_reload_fits': 2, 'origin_finder': 1,
                 'files_checked': 100, 'first_row_atypical_catalogues': 3, 'overwrites': 50, 'sequence_writes': 200, 'sequence_writes_sqlite': 80,
                 'text_files_over_1MiB': 5, 'text_files_over_1MiB_csv': 2, 'text_files_over_1MiB_tab': 2,
-                'spelled_extension_writes': 40, 'cells_double_exact_compared': 10000}
+                'spelled_extension_writes': 40, 'cells_float32_attribute': 500, 'shared_object_catalogues': 4,
+                'object_attributes_rechecked': 2000, 'container_generator': 2, 'container_filter': 2, 'container_chain': 2,
+                'container_iterator': 2, 'container_tuple': 2, 'container_ndarray': 2, 'cells_double_exact_compared': 10000}
 BATCHES_PER_JOB = 4
 
 TABLE_FORMATS = ['csv', 'tab', 'tex', 'vot', 'xml', 'fits']
@@ -213,6 +215,35 @@ def _hand_catalogue(case, rng):
                 o2 = dict(typical)
                 o2['uuid_len'] = ln
                 cat.append(_make(cl[key], rng, o2, i))
+    elif recipe == 'typed':
+        # attribute TYPES as a stratum: np.float32 / np.float64 / Python float, numpy / Python ints
+        opt = dict(p_nan=0.05, p_m1=0.1, p_extreme=0.0, p_int0=0.0)
+        mode = case.get('typed', 'rows')
+        f32cols = ('background', 'local_rms', 'peak_flux', 'eta', 'peak_pixel', 'residual_std')
+        for i in range(case.get('n', 24)):
+            s = _make(cl[case.get('mix', ['comp', 'isle', 'simp'])[i % len(case.get('mix', ['comp', 'isle', 'simp']))]], rng, opt, i)
+            for nme in type(s).names:
+                v = getattr(s, nme)
+                if nme in STR_FIELDS:
+                    continue
+                if nme in INT_FIELDS:
+                    if i % 3 == 1:
+                        setattr(s, nme, np.int64(v))
+                    elif i % 3 == 2:
+                        setattr(s, nme, np.int32(v))
+                    continue
+                if mode == 'columns':
+                    # whole columns of float32, as the finder makes them from a 32-bit image
+                    if nme in f32cols:
+                        setattr(s, nme, np.float32(rng.normal(0, 1) * 10.0 ** rng.integers(-4, 3)) if v == v and v != -1 else np.float32(v))
+                    elif i % 2:
+                        setattr(s, nme, np.float64(v))
+                else:
+                    if i % 4 == 0 or (i % 4 == 1 and nme in f32cols):
+                        setattr(s, nme, np.float32(rng.normal(0, 1) * 10.0 ** rng.integers(-4, 3)) if v == v and v != -1 else np.float32(v))
+                    elif i % 4 == 2:
+                        setattr(s, nme, np.float64(v))
+            cat.append(s)
     elif recipe == 'clean':
         # no NaN, strings of constant width: used as the basis of the FITS re-load origin
         for i in range(case.get('n', 30)):
@@ -311,6 +342,59 @@ def _read_direct(fmt, path):
     raise ValueError(fmt)
 
 
+# ----------------------------------------------------------------------------- the catalogue argument
+CONTAINERS = ['list', 'tuple', 'ndarray', 'generator', 'filter', 'chain', 'iterator']
+
+
+def _catalog_arg(cat, ctx, final=False):
+    """what is handed to save_catalog: by default a deep copy in a list (a write may sanitise the objects in place);
+    with ctx['shared_objects'] the final write gets the caller's own objects; ctx['container'] picks the kind of iterable"""
+    import itertools
+    objs = list(cat) if (final and ctx.get('shared_objects')) else copy.deepcopy(list(cat))
+    kind = ctx.get('container', 'list')
+    if kind == 'list':
+        return objs
+    if kind == 'tuple':
+        return tuple(objs)
+    if kind == 'ndarray':
+        a = np.empty(len(objs), dtype=object)
+        a[:] = objs
+        return a
+    if kind == 'generator':
+        return (s_ for s_ in objs)
+    if kind == 'filter':
+        return filter(lambda s_: True, objs)
+    if kind == 'chain':
+        h = len(objs) // 2
+        return itertools.chain(objs[:h], objs[h:])
+    if kind == 'iterator':
+        return iter(objs)
+    raise ValueError(kind)
+
+
+def _check_objects_unchanged(o, cat, exp, fmt, ctx):
+    """after a write the caller's objects must hold the same values (the type may be widened, e.g. float32 -> float64,
+    but only exactly)"""
+    idx = {'ComponentSource': 0, 'IslandSource': 0, 'SimpleSource': 0}
+    for s_ in cat:
+        cn = type(s_).__name__
+        before = exp[cn][idx[cn]]
+        idx[cn] += 1
+        for n, b in before.items():
+            a = getattr(s_, n)
+            o.count('object_attributes_rechecked')
+            if isinstance(b, str) or isinstance(a, str):
+                same = isinstance(a, str) and isinstance(b, str) and str(a) == str(b)
+            else:
+                fa, fb = float(a), float(b)
+                same = (fa == fb) or (fa != fa and fb != fb)
+            if not same:
+                _viol(o, 'object_changed_by_write', dict(ctx, format=fmt, attribute=n, type=cn, before=repr(b),
+                                                         before_type=type(b).__name__, after=repr(a),
+                                                         after_type=type(a).__name__))
+                return
+
+
 # ----------------------------------------------------------------------------- oracle
 def _viol(o, clause, wit):
     """record at most one witness per (clause, format, reader, variant, attribute) and case; count all"""
@@ -381,7 +465,17 @@ def _cmp_cell(o, fmt, how, name, exp, got, ctx):
         if g != -1:
             _viol(o, 'minus1_not_preserved', wit())
         return
-    single = (fmt == 'fits') or isinstance(exp, np.float32)
+    if isinstance(exp, np.float32):
+        # a float32 attribute: a double store (sqlite) must hold its exact widening; everywhere else it survives as
+        # a float32, i.e. narrowing what was read gives the identical float32
+        o.count('cells_float32_attribute')
+        ok = (g == x) if how == 'sqlite' else (np.float32(g) == exp)
+        o.worst('float32_attribute_rel_err', abs(g - x) / abs(x) if x != 0 else abs(g - x))
+        if not ok:
+            _viol(o, 'float_cell', wit(rel_err=abs(g - x) / abs(x) if x != 0 else abs(g - x),
+                                       rule='exact widening' if how == 'sqlite' else 'identical after narrowing to float32'))
+        return
+    single = (fmt == 'fits')
     tol = TOL_SINGLE if single else TOL_DOUBLE
     err = abs(g - x)
     if x != 0:
@@ -440,16 +534,18 @@ def _roundtrip_table(o, cat, exp, fmt, variant, workdir, ctx, prior=None):
             warnings.simplefilter('ignore')
             if prior is not None:
                 # write sequence: another catalogue (other type mix) was saved under the same name before
-                catalogs.save_catalog(base, copy.deepcopy(prior), meta=meta, prefix=prefix)
+                catalogs.save_catalog(base, _catalog_arg(prior, ctx), meta=meta, prefix=prefix)
                 o.count('overwrites')
                 o.count('sequence_writes')
             elif variant == 'plain':
                 # the files already exist (other content, other order) when the catalogue is written: the
                 # second write must replace them
-                catalogs.save_catalog(base, copy.deepcopy(cat[::-1][:max(1, len(cat) - 1)]) + copy.deepcopy(cat[:1]),
+                catalogs.save_catalog(base, _catalog_arg(cat[::-1][:max(1, len(cat) - 1)] + cat[:1], ctx),
                                       meta=meta, prefix=prefix)
                 o.count('overwrites')
-            catalogs.save_catalog(base, copy.deepcopy(cat), meta=meta, prefix=prefix)
+            catalogs.save_catalog(base, _catalog_arg(cat, ctx, final=True), meta=meta, prefix=prefix)
+            if ctx.get('shared_objects'):
+                _check_objects_unchanged(o, cat, exp, fmt, ctx)
     except Exception:
         _viol(o, 'raises', dict(ctx, format=fmt, where='save_catalog', traceback=traceback.format_exc()[-700:]))
         return
@@ -527,12 +623,14 @@ def _roundtrip_db(o, cat, exp, fmt, workdir, ctx, prior=None):
         with warnings.catch_warnings():
             warnings.simplefilter('ignore')
             # to be replaced: the same catalogue reversed, or (write sequence) a catalogue of another type mix
-            catalogs.save_catalog(path, copy.deepcopy(prior if prior is not None else cat[::-1]), meta={'PROGRAM': 'other'})
+            catalogs.save_catalog(path, _catalog_arg(prior if prior is not None else cat[::-1], ctx), meta={'PROGRAM': 'other'})
             o.count('overwrites')
             if prior is not None:
                 o.count('sequence_writes')
                 o.count('sequence_writes_sqlite')
-            catalogs.save_catalog(path, copy.deepcopy(cat), meta={'PROGRAM': 'aegmon'})
+            catalogs.save_catalog(path, _catalog_arg(cat, ctx, final=True), meta={'PROGRAM': 'aegmon'})
+            if ctx.get('shared_objects'):
+                _check_objects_unchanged(o, cat, exp, fmt, ctx)
     except Exception:
         _viol(o, 'raises', dict(ctx, format=fmt, where='save_catalog', traceback=traceback.format_exc()[-700:]))
         return
@@ -611,6 +709,20 @@ def cases(seed, tier):
         for mix in (['comp'], ['isle'], ['simp']):
             add('hand', recipe='random', n=n, mix=mix, seed=[0, 'tiny', n, mix[0]], variants=('plain',))
     add('finder', recipe='finder', nsrc=8, seed=[0, 'finder'])
+    # attribute types; the same objects written to every format in turn (sqlite first: its writer sanitises in place)
+    seq = ['db', 'csv', 'vot', 'fits', 'sqlite', 'tab', 'tex', 'xml']
+    for mode in ('rows', 'columns'):
+        add('hand', recipe='typed', typed=mode, n=24, variants=('plain',), seed=[0, 'typed', mode])
+        add('hand', recipe='typed', typed=mode, n=24, formats=seq, shared_objects=True, variants=('plain',),
+            seed=[0, 'typed-shared', mode])
+        add('hand', recipe='typed', typed=mode, n=9, mix=['comp'], formats=seq[::-1], shared_objects=True, variants=('plain',),
+            seed=[0, 'typed-shared-rev', mode])
+    add('finder', recipe='finder', nsrc=8, formats=seq, shared_objects=True, variants=('plain',), seed=[0, 'finder', 'shared'])
+    # the container handed to save_catalog
+    for cont in CONTAINERS:
+        add('hand', recipe='random', n=7, mix=['comp', 'isle', 'simp'], every_type=True, container=cont,
+            seed=[0, 'container', cont])
+        add('reload_csv', recipe='random', n=2, mix=['comp'], container=cont, variants=('plain',), seed=[0, 'container1', cont])
     # size strata: text files well over 1 MiB (readers may switch strategy with size), compared exactly
     add('hand', recipe='random', n=3000, mix=['comp'], formats=['csv', 'tab', 'tex'], variants=('plain',),
         p_nan=0.03, p_extreme=0.3, seed=[0, 'big', 'comp', 3000])
@@ -685,6 +797,12 @@ def run(case):
             o.see('write_sequences', ctx['sequence'])
         if case.get('stem'):
             ctx['stem'] = case['stem']
+        if case.get('container'):
+            ctx['container'] = case['container']
+            o.count('container_' + case['container'])
+        if case.get('shared_objects'):
+            ctx['shared_objects'] = True        # the same objects go through every format in turn (db first)
+            o.count('shared_object_catalogues')
         for fmt in case['formats']:
             if fmt.lower() in DB_FORMATS:
                 _roundtrip_db(o, cat, exp, fmt, workdir, ctx, prior=prior)
